@@ -21,7 +21,7 @@ STUB = ["cost, constraints, penalty, callback (scripted peers)", "clocks", "sign
 
 KNOBS = dict(p_vector=0.08, p_resume=0.4, p_logging=0.25)
 
-def gen_plan(seed, tier):
+def _gen_plan(seed, tier):
     plan = solverplan.gen_solver_plan(seed, tier, ID, KNOBS)
     # fault-injecting configuration (reported separately in the evidence: faults_fired): an ENOSPC / EIO on a write
     # of a LoggingMonitor file.  The plan ends where the error reaches the caller.
@@ -30,9 +30,12 @@ def gen_plan(seed, tier):
     rng = sub_rng(seed, 'fault')
     if logging and rng.random() < 0.5:
         plan['faults'] = [{'at': 'fs.write#%d' % rng.randint(2, 40), 'kind': rng.choice(['enospc', 'eio'])}]
+    elif rng.random() < 0.08:
+        # the user's cost fails once, loudly, from inside a call that has begun (it counts as a call)
+        plan['faults'] = [{'at': 'cost#%d' % rng.randint(1, 60), 'kind': 'raise', 'msg': 'injected failure of the cost function'}]
     return plan
 
-def run_plan(plan):
+def _run_plan(plan):
     return solverplan.run_solver_plan(plan, [oracles.CounterModel])
 
 simplify = solverplan.simplify_solver_plan
@@ -41,3 +44,27 @@ LEVEL_TEXT = ("seeded search over API histories (Set*/Step/Solve/Finalize incl. 
               "with a CounterModel reference checked after every operation and at every iteration boundary; sampling, not proof")
 LEVEL_NOTE = ("trusts the scripted peers' call log as ground truth for 'real cost calls'; a clean batch is evidence, not proof; "
               "Powell's re-finalize bookkeeping is a listed known finding")
+
+
+# ---- the one-liner interfaces named by the property (fmin, fmin_powell, diffev, diffev2, lattice, buckshot)
+from .. import wrappers as _wr
+from ..env import sub_rng as _sub_rng
+P_WRAPPER = 0.1
+
+def gen_plan(seed, tier):
+    if _sub_rng(seed, 'plan.kind.wrapper').random() < P_WRAPPER:
+        return _wr.gen_wrapper_plan(seed, tier, ID, interrupts=(ID == 'C05'))
+    return _gen_plan(seed, tier)
+
+def run_plan(plan):
+    if plan.get('kind') == 'wrapper': return _wr.run_wrapper_plan(plan, (ID,))
+    return _run_plan(plan)
+
+_valid0 = valid
+_simplify0 = simplify
+def valid(plan):
+    if plan.get('kind') == 'wrapper': return True
+    return True if _valid0 is None else _valid0(plan)
+def simplify(plan):
+    if plan.get('kind') == 'wrapper': return _wr.simplify_wrapper_plan(plan)
+    return _simplify0(plan)
